@@ -547,12 +547,13 @@ fn run_history(out: &mut Out, root: &Path, r: &mut Rng, plan: &Plan, fixed: Opti
         ops.iter()
             .map(|o| match o {
                 Op::Append(e) => {
-                    let mut s = dbg(e);
+                    // ASCII only (the shared case writer cuts long texts at a byte index)
+                    let s: String = dbg(e).chars().map(|c| if c.is_ascii() { c } else { '?' }).collect();
                     if s.len() > 90 {
-                        s.truncate(90);
-                        s.push('…');
+                        format!("{}...", &s[..90])
+                    } else {
+                        s
                     }
-                    s
                 }
                 o => format!("{:?}", o),
             })
